@@ -224,6 +224,14 @@ func (cb *CellBuffer) Fill(r rune, style Style) {
 	width := runewidth.RuneWidth(r)
 	for i := range cb.cells {
 		c := &cb.cells[i]
+		if c.width > 1 && (c.currMain != r || len(c.currComb) > 0) {
+			// a wide rune goes away: the columns it covered have to
+			// be repainted too, as in SetContent
+			x, y := i%cb.w, i/cb.w
+			for j := 1; j < c.width; j++ {
+				cb.SetDirty(x+j, y, true)
+			}
+		}
 		c.currMain = r
 		c.currComb = nil
 		cs := style
